@@ -139,7 +139,7 @@ def _foreign_bytes(case):
                                                          "metadata": {"encoding": "UTF-8"}}],
               "columns": cols, "creator": {"library": "pyarrow", "version": "14.0.1"}, "pandas_version": "2.1.4"}
         plan["kv"] = [["pandas", json.dumps(md)]]
-    return writer.write(plan)
+    return writer.write(plans.expand_plan(plan))
 
 
 def norm_dtype(x):
